@@ -122,7 +122,7 @@ theorem color3D_servable (Lx Ly Lz : Nat) (h : C01Color3DCode.Family Lx Ly Lz) :
 
 theorem color488_servable (L : Nat) (hL : 1 ≤ L) (name : String) (hn : name = "None" ∨ name = "XXZZ") :
     Servable (color488 L L) Generated.GuiFull.tables color488Types name where
-  wf := C01Color488Code.wf L hL
+  wf := C01Color488Code.wf L L hL hL
   tables := color488_tables
   stab_types := by
     intro s hs
@@ -137,7 +137,7 @@ theorem color488_servable (L : Nat) (hL : 1 ≤ L) (name : String) (hn : name = 
   qubit_axes := by
     intro q hq
     have hq' : q ∈ Color488Code.qubits L L := hq
-    obtain ⟨a, b, rfl, _⟩ := (Color488Code.mem_qubits hL).mp hq'
+    obtain ⟨a, b, rfl, _⟩ := (Color488Code.mem_qubits hL hL).mp hq'
     exact ⟨"x", rfl⟩
   stab_edits := color488StabEdits_simple L L
   qubit_edits := noEdits_simple
@@ -148,7 +148,7 @@ theorem color488_servable (L : Nat) (hL : 1 ≤ L) (name : String) (hn : name = 
       intro q hq
       show (ofDeformResult (Color488Code.getDeformation name q)).isSome = true
       rw [h]
-      obtain ⟨x, y, rfl, e | e⟩ := C01Color488Code.deformation_rule_on_qubits L hL q hq <;> rw [e.2] <;> rfl
+      obtain ⟨x, y, rfl, e | e⟩ := C01Color488Code.deformation_rule_on_qubits L L hL hL q hq <;> rw [e.2] <;> rfl
 
 /-- `Color666PlanarCode` offers no deformation (and ignores `Ly`) -/
 theorem color666Planar_servable (Lx Ly : Nat) (hx : 1 ≤ Lx) :
